@@ -57,6 +57,15 @@ def cases(tier, seed):
         out.append({'est': name, 'params': cfg, 'ds': ds, 'seed': seed % 1000,
                     'nq': nq, 'qseed': int(rng_for('q', seed, name, di,
                                                    ci).randint(2**31 - 1))})
+  # learners whose metric is rank deficient by construction (MMC's projected
+  # matrices, SCML's sparse combinations): "pseudo"-metrics proper, and the
+  # eigen-decomposition path of the metric -> transformation step
+  extra = 12 if tier == 'quick' else 60
+  for name in ('MMC', 'MMC_Supervised', 'SCML_Supervised'):
+    for ds in common.ds_specs(seed, 'C01x' + name, extra, dmax=5):
+      out.append({'est': name, 'params': {}, 'ds': ds, 'seed': seed % 1000,
+                  'nq': 6, 'qseed': int(rng_for('qx', seed, name,
+                                                ds['seed']).randint(2**31 - 1))})
   return _with_repotests(out, tier)
 
 
@@ -91,9 +100,16 @@ def run_case(spec, j):
     return
   est = f.est
   L = est.components_
-  if not (isinstance(L, np.ndarray) and L.dtype.kind == 'f' and
-          np.all(np.isfinite(L))):
+  if not (isinstance(L, np.ndarray) and L.dtype.kind == 'f'):
     j.skip('C01', 'degenerate-model')   # C03 judges this
+    return
+  if not np.all(np.isfinite(L)):
+    # a learner fitted on well-formed data whose transformation holds NaN or
+    # inf reports non-finite distances for every pair
+    j.violated('C01.finite', {'est': spec['est'], 'params': spec.get('params'),
+                              'why': 'components_ is not finite',
+                              'components_': L},
+               mechanism='non-finite-components')
     return
   Lfro = np.linalg.norm(L)
   L2 = np.linalg.norm(L, 2) if L.size else 0.0
